@@ -513,6 +513,27 @@ def rule_cb_guard(ctx):
            "the handler only formats the item (it is an arbitrary object): nothing in the handler can raise on it", not bad_uses,
            "" if not bad_uses else "`%s` in the handler raises for some items (no len(), not sliceable, ...): the exception escapes from the "
                                    "handler and the worker dies with the rest of its items unprocessed" % unparse(bad_uses[0], 60))
+    # ... and what the handler sends to another process is text: the caught exception (like the item) is an arbitrary object of the
+    # callback's making; put on a queue as an object it is pickled here and rebuilt in the receiving process, where an exception class
+    # that does not survive the round trip kills the receiver (the log process) -- after which every producer blocks
+    excvars = {h.name for h in t.handlers if h.name}
+    sent = []
+    for h in t.handlers:
+        for n in ast.walk(h):
+            if isinstance(n, ast.Call) and isinstance(n.func, ast.Attribute) and n.func.attr in ("put", "put_nowait", "send"):
+                for a in n.args:
+                    for x in ast.walk(a):
+                        if isinstance(x, ast.Name) and x.id in (excvars | itemvars) and isinstance(x.ctx, ast.Load):
+                            par = parents.get(id(x))
+                            safe = isinstance(par, ast.FormattedValue) or (
+                                isinstance(par, ast.Call) and isinstance(par.func, ast.Name) and par.func.id in ("str", "repr", "type") and par.args == [x]) or (
+                                isinstance(par, ast.Call) and isinstance(par.func, ast.Attribute) and par.func.attr == "format")
+                            if not safe:
+                                sent.append(x)
+    ctx.ob("cb-guard", wk, sent[0] if sent else t, "what the handler puts on a queue",
+           "the handler reports the failure as text: neither the exception object nor the item is sent to another process", not sent,
+           "" if not sent else "the handler puts the object `%s` on a queue: an exception (or item) that cannot be rebuilt by the receiving process kills it, "
+                               "and with the log process gone the producers block and parallel_add hangs" % sent[0].id)
     # the failure path: the iteration still ends normally (loop continues) having added exactly 0 records
     cont, _exits, _ = W.iterations()
     hpaths = [e for e in cont if any((isinstance(pol, tuple) and pol and pol[0] == "handler") or pol == "handler" for (_, pol, _) in e.path)]
